@@ -71,6 +71,11 @@ fn main() {
             let threads: usize = std::env::var("VERIF_THREADS").ok().and_then(|s| s.parse().ok()).unwrap_or(8);
             println!("{}", c23::run(thorough, seed, threads));
         }
+        "sqlrun" => {
+            let w = pq::World::new(pq::default_tables());
+            let data = vec![("t1".to_string(), vec![vec![Some(0), Some(2)], vec![Some(1), Some(5)]]), ("t2".to_string(), vec![vec![Some(0), Some(7)]]), ("t3".to_string(), vec![])];
+            println!("{:?}", w.run_sql_normally(&args[2], &data));
+        }
         "c44" => {
             let seed: u64 = std::env::var("VERIF_SEED").ok().and_then(|s| s.parse().ok()).unwrap_or(0);
             let threads: usize = std::env::var("VERIF_THREADS").ok().and_then(|s| s.parse().ok()).unwrap_or(8);
